@@ -875,6 +875,10 @@ func (ts *Service) handleUpdateTask(w http.ResponseWriter, r *http.Request) {
 
 	// Set ID if changing
 	if task.ID != "" {
+		if !validTaskID.MatchString(task.ID) {
+			httpd.HttpError(w, fmt.Sprintf("task ID must contain only letters, numbers, '-', '.' and '_'. %q", task.ID), true, http.StatusBadRequest)
+			return
+		}
 		updated.ID = task.ID
 	}
 
@@ -1755,6 +1759,10 @@ func (ts *Service) handleUpdateTemplate(w http.ResponseWriter, r *http.Request) 
 
 	// Set ID
 	if template.ID != "" {
+		if !validTemplateID.MatchString(template.ID) {
+			httpd.HttpError(w, fmt.Sprintf("template ID must contain only letters, numbers, '-', '.' and '_'. %q", template.ID), true, http.StatusBadRequest)
+			return
+		}
 		updated.ID = template.ID
 	}
 
